@@ -7,7 +7,7 @@
 %   Mode = plain              Item = p-Template
 %        | lim(L)             Item = R-Template          call_with_inference_limit(Goal, L, R)
 %        | nest(Li, Lo)       Item = n(Ro, Ri)-Template  the same inside an outer limit Lo
-%        | seq(Li, Lo)        Item = n(Ro, Ri)-Template  outer limit over (inner limited Goal, c40_tail)
+%        | seq(Li, Lo, N)     Item = n(Ro, Ri)-Template  outer limit over (inner limited Goal, c40_tail(N))
 %        | enclosed(L)        Items = the list made by findall(R, call_with_inference_limit(Goal, L, R), Items)
 
 c40_go(G, T, Mode) :-
@@ -35,8 +35,8 @@ c40_mode(plain, G, T, p-T) :- call(G).
 c40_mode(lim(L), G, T, R-T) :- call_with_inference_limit(G, L, R).
 c40_mode(nest(Li, Lo), G, T, n(Ro, Ri)-T) :-
     call_with_inference_limit(call_with_inference_limit(G, Li, Ri), Lo, Ro).
-c40_mode(seq(Li, Lo), G, T, n(Ro, Ri)-T) :-
-    call_with_inference_limit((call_with_inference_limit(G, Li, Ri), c40_tail(3)), Lo, Ro).
+c40_mode(seq(Li, Lo, N), G, T, n(Ro, Ri)-T) :-
+    call_with_inference_limit((call_with_inference_limit(G, Li, Ri), c40_tail(N)), Lo, Ro).
 
 c40_tail(N) :- ( N =< 0 -> true ; N1 is N - 1, c40_tail(N1) ).
 
